@@ -9,7 +9,7 @@ THOROUGH_SEEDS = 1   # the thorough tier repeats its staged workload over this m
 RULE = ('the hooked work counter (sum of row lengths passed to the multiply-accumulate row routine = elementary digit '
         'multiplications) is read before/after one &a * &b on fixed dense operands (no zero digits; seed-independent), so the '
         'count is a deterministic function of the code: balanced n in {256,...,16384}: W(2n)/W(n) <= 3.1 for every doubling, '
-        'W(4096) < 4096^2/4; unbalanced n x (2n-1), n x 2n, n x 64n for n in {64,256,300,1024}: W <= n*m; every product is also '
+        'W(4096) < 4096^2/4, the same for squares computed as &a * &a on one object; unbalanced n x (2n-1), n x 2n, n x 64n for n in {64,256,300,1024}: W <= n*m; every product is also '
         'value-checked by digest so a fast-but-wrong dispatch cannot pass. No timing is used. A cell is one (n, m) shape')
 ASSUMPTIONS = ['the work counter hook adds one statement to mac_digit and does not alter dispatch', 'thresholds: ratio 3.1 (Karatsuba = 3.0, schoolbook = 4.0)']
 
@@ -41,6 +41,25 @@ def cmd_work(n, m, tag):
         return out
 
     return Cmd(line, check, cell=(tag, n, m), prop='C20')
+
+
+def cmd_worksq(n, tag):
+    a = dense(n, 1)
+    wd = digest(a * a)
+    line = 'worksq %s' % U(a)
+
+    def check(res):
+        out = []
+        w = res.val(0)
+        d = res.pos[1]
+        if d == 'P':
+            return [Problem({'C20', 'C02', 'C14'}, 'worksq: squaring panicked', '')]
+        if d != wd:
+            out.append(Problem({'C02'}, 'worksq: wrong square', 'n=%d' % n))
+        _W[(tag + '-sq', n, n)] = w
+        return out
+
+    return Cmd(line, check, cell=(tag + '-sq', n), prop='C20')
 
 
 BAL = [256, 512, 1024, 2048, 4096, 8192, 16384]
@@ -92,11 +111,12 @@ def analyse(tag, sizes, unb):
 
 def stages(tier, seed):
     _W.clear()
-    rel = [cmd_work(n, n, 'rel') for n in BAL] + [cmd_work(n, m, 'rel') for n, m in UNB]
+    rel = [cmd_work(n, n, 'rel') for n in BAL] + [cmd_work(n, m, 'rel') for n, m in UNB] + [cmd_worksq(n, 'rel') for n in BAL]
     dsz = [256, 512, 1024, 2048, 4096]
     dun = [(n, m) for n, m in UNB if n * m <= 300 * 64 * 300]
     dbg = [cmd_work(n, n, 'dbg') for n in dsz] + [cmd_work(n, m, 'dbg') for n, m in dun]
     return [dict(label='rel', variant='rel', groups=[rel], floors=['MulToom3', 'MulKaratsuba', 'MulHalfKaratsuba']),
             dict(label='analyse-rel', custom=lambda: analyse('rel', BAL, UNB)),
+            dict(label='analyse-rel-squares', custom=lambda: analyse('rel-sq', BAL, [])),
             dict(label='dbg', variant='dbg', groups=[dbg]),
             dict(label='analyse-dbg', custom=lambda: analyse('dbg', dsz, dun))]
